@@ -49,6 +49,10 @@ EnvStep ==
           [] e.a = "TRst" -> TargetRst(1)
           [] e.a = "TClose" -> TargetClose(1)
           [] e.a = "CRst" -> ClientRst(1)
+          [] e.a = "TPause" -> TargetPause(1)
+          [] e.a = "TResume" -> TargetResume(1)
+          [] e.a = "CPause" -> ClientPause(1)
+          [] e.a = "CResume" -> ClientResume(1)
           [] e.a = "Tick" -> Tick
           [] e.a = "CloseListener" -> CloseListener
   /\ si' = si + 1 /\ l' = l
